@@ -255,3 +255,137 @@ func isFreshCall(v ssa.Value) bool {
 	return false
 }
 
+
+func init() {
+	register(&Rule{ID: "AL-1", Min: 1, Run: runAL1,
+		Doc: "mutable rule objects are not shared between nodes: a constraint object read from one node (Constraint/Get) is attached to another node (AddConstraint/Set) only if its Go type has no method that writes its own fields; copying a mutable rule (required keys, types list, enum, allOf, min/max) must copy its content — sharing it lets a later change to one node (or to an added type shared by several schemas) leak into the other"})
+}
+
+func runAL1(c *load.Ctx, r *report.RuleResult) {
+	e := newAbsNodeEnv(c)
+	// which constraint Go types have mutators
+	mutators := map[*types.Named][]string{}
+	for _, named := range constraintImpls(c) {
+		ms := c.Prog.MethodSets.MethodSet(types.NewPointer(named))
+		for i := 0; i < ms.Len(); i++ {
+			f := c.Prog.MethodValue(ms.At(i))
+			if f == nil || f.Synthetic != "" || len(f.Params) == 0 {
+				continue
+			}
+			for _, b := range f.Blocks {
+				for _, ins := range b.Instrs {
+					if st, ok := ins.(*ssa.Store); ok {
+						if fa, ok := st.Addr.(*ssa.FieldAddr); ok && fa.X == f.Params[0] {
+							mutators[named] = append(mutators[named], f.Name())
+						}
+					}
+				}
+			}
+		}
+	}
+	isGetter := func(cc *ssa.CallCommon) (recv ssa.Value, k ssa.Value, ok bool) {
+		name := ""
+		if cc.IsInvoke() {
+			name = cc.Method.Name()
+			if name == "Constraint" && len(cc.Args) == 1 {
+				return cc.Value, cc.Args[0], true
+			}
+			return nil, nil, false
+		}
+		if sc := cc.StaticCallee(); sc != nil && sc.Signature.Recv() != nil && len(cc.Args) == 2 {
+			name = sc.Name()
+			if name == "Constraint" || name == "Get" || name == "GetValue" {
+				if strings.HasSuffix(cc.Args[1].Type().String(), "constraint.Type") {
+					return cc.Args[0], cc.Args[1], true
+				}
+			}
+		}
+		return nil, nil, false
+	}
+	n := 0
+	for _, fn := range c.ModuleFunctions() {
+		for _, b := range fn.Blocks {
+			for _, ins := range b.Instrs {
+				call, ok := ins.(ssa.CallInstruction)
+				if !ok {
+					continue
+				}
+				cc := call.Common()
+				var recv, arg ssa.Value
+				switch {
+				case cc.IsInvoke() && cc.Method.Name() == "AddConstraint" && len(cc.Args) == 1:
+					recv, arg = cc.Value, cc.Args[0]
+				case !cc.IsInvoke() && cc.StaticCallee() != nil && cc.StaticCallee().Name() == "AddConstraint" && len(cc.Args) == 2:
+					recv, arg = cc.Args[0], cc.Args[1]
+				default:
+					continue
+				}
+				// where does the argument come from?
+				src, k := getterOrigin(arg, isGetter, 0)
+				if src == nil {
+					continue // a freshly built constraint
+				}
+				if src == recv || sameOrigin(src, recv) {
+					continue // re-attached to the node it came from
+				}
+				n++
+				kname := "?"
+				var named *types.Named
+				if kc, ok := k.(*ssa.Const); ok && kc.Value != nil {
+					if ci := e.byVal[kc.Int64()]; ci != nil {
+						kname, named = ci.name, ci.named
+					}
+				}
+				key := fmt.Sprintf("shared|%s|%s", load.FuncKey(fn), strings.TrimSuffix(kname, "ConstraintType"))
+				switch {
+				case named == nil:
+					r.Unk(key, c.Pos(ins.Pos()), "a constraint object of unknown type is moved from one node to another")
+				case len(mutators[named]) > 0:
+					r.Bad(key, c.Pos(ins.Pos()), fmt.Sprintf("the %s object of one node is attached to another node, but %s is mutable (%s): both nodes now share one object, so extending one of them changes the other — and the source may belong to an added type shared between schemas", named.Obj().Name(), named.Obj().Name(), strings.Join(uniq(mutators[named]), ", ")))
+				default:
+					r.OK(key, c.Pos(ins.Pos()), named.Obj().Name()+" has no mutating method: sharing it is harmless")
+				}
+			}
+		}
+	}
+	if n == 0 {
+		r.OK("shared|none", "", "no constraint object is moved between nodes")
+	}
+}
+
+func getterOrigin(v ssa.Value, isGetter func(*ssa.CallCommon) (ssa.Value, ssa.Value, bool), depth int) (recv, k ssa.Value) {
+	if depth > 8 {
+		return nil, nil
+	}
+	switch x := v.(type) {
+	case *ssa.Call:
+		if r, kk, ok := isGetter(&x.Call); ok {
+			return r, kk
+		}
+	case *ssa.TypeAssert:
+		return getterOrigin(x.X, isGetter, depth+1)
+	case *ssa.Extract:
+		return getterOrigin(x.Tuple, isGetter, depth+1)
+	case *ssa.MakeInterface:
+		return getterOrigin(x.X, isGetter, depth+1)
+	case *ssa.ChangeInterface:
+		return getterOrigin(x.X, isGetter, depth+1)
+	case *ssa.Phi:
+		for _, e := range x.Edges {
+			if r, kk := getterOrigin(e, isGetter, depth+1); r != nil {
+				return r, kk
+			}
+		}
+	case *ssa.UnOp:
+		if a, ok := x.X.(*ssa.Alloc); ok {
+			for _, ref := range *a.Referrers() {
+				if st, ok := ref.(*ssa.Store); ok && st.Addr == a {
+					if r, kk := getterOrigin(st.Val, isGetter, depth+1); r != nil {
+						return r, kk
+					}
+				}
+			}
+		}
+	}
+	return nil, nil
+}
